@@ -1,6 +1,6 @@
 import json
 from mindsdb_sql.parser.ast.base import ASTNode
-from mindsdb_sql.parser.utils import indent
+from mindsdb_sql.parser.utils import indent, json_to_sql
 from mindsdb_sql.parser.ast.select.operation import Object
 
 class Select(ASTNode):
@@ -146,7 +146,7 @@ class Select(ASTNode):
             for key, value in self.using.items():
                 if isinstance(value, Object):
                     args = [
-                        f'{k}={v.to_string() if isinstance(v, ASTNode) else json.dumps(v, ensure_ascii=False)}'
+                        f'{k}={v.to_string() if isinstance(v, ASTNode) else json_to_sql(v)}'
                         for k, v in value.params.items()
                     ]
                     args_str = ', '.join(args)
@@ -155,7 +155,7 @@ class Select(ASTNode):
                     # USING key = identifier
                     value = value.to_string()
                 else:
-                    value = json.dumps(value, ensure_ascii=False)
+                    value = json_to_sql(value)
 
                 using_ar.append(f'{Identifier(key).to_string()}={value}')
 
